@@ -138,4 +138,55 @@ theorem prefixed_valid (k : Nat) (a : String) (h : allName a.toList = true) : va
   · simp only [allName, List.all_eq_true] at h
     exact h c hc
 
+/-! ### the global names of the slice and substring routines -/
+
+/-- `_dvc` (slice counter), `_ret`, `_ls`, `_ll` (substring routine), `_c` (loop variable of `_sah`) -/
+def isSpecial (x : String) : Bool := x == "_dvc" || x == "_ret" || x == "_ls" || x == "_ll" || x == "_c"
+
+theorem special_cases {x : String} (h : isSpecial x = true) : x = "_dvc" ∨ x = "_ret" ∨ x = "_ls" ∨ x = "_ll" ∨ x = "_c" := by
+  have h' : (((x = "_dvc" ∨ x = "_ret") ∨ x = "_ls") ∨ x = "_ll") ∨ x = "_c" := by simpa [isSpecial] using h
+  rcases h' with (((h | h) | h) | h) | h
+  · exact Or.inl h
+  · exact Or.inr (Or.inl h)
+  · exact Or.inr (Or.inr (Or.inl h))
+  · exact Or.inr (Or.inr (Or.inr (Or.inl h)))
+  · exact Or.inr (Or.inr (Or.inr (Or.inr h)))
+
+theorem special_head {x : String} (h : isSpecial x = true) : x.toList.head? = some '_' := by
+  rcases special_cases h with rfl | rfl | rfl | rfl | rfl <;> rfl
+
+theorem special_ne_prefixed {x : String} (h : isSpecial x = true) (k : Nat) (a : String) : x ≠ fnPrefix k ++ a := by
+  intro e
+  have h1 := special_head h
+  rw [e, prefixed_not_underscore] at h1
+  simp at h1
+
+theorem special_ne_helper {x : String} (h : isSpecial x = true) (j : Nat) : x ≠ helperName j := by
+  intro e
+  have h' : x.toList = (helperName j).toList := by rw [e]
+  rcases special_cases h with rfl | rfl | rfl | rfl | rfl <;> simp [helperName, String.toList_append] at h'
+
+theorem special_ne_tmp {x : String} (h : isSpecial x = true) (j : Nat) : x ≠ tmpName j := by
+  intro e
+  have h' : x.toList = (tmpName j).toList := by rw [e]
+  rcases special_cases h with rfl | rfl | rfl | rfl | rfl <;> simp [tmpName, String.toList_append] at h'
+
+theorem special_ne_flag {x : String} (h : isSpecial x = true) (j : Nat) : x ≠ flagName j := by
+  intro e
+  have h' : x.toList = (flagName j).toList := by rw [e]
+  rcases special_cases h with rfl | rfl | rfl | rfl | rfl <;> simp [flagName_eq, String.toList_append] at h'
+
+theorem special_ne_rv {x : String} (h : isSpecial x = true) (j : Nat) : x ≠ rvName j := by
+  intro e
+  have h' : x.toList = (rvName j).toList := by rw [e]
+  rcases special_cases h with rfl | rfl | rfl | rfl | rfl <;> simp [rvName, String.toList_append] at h'
+
+theorem good_ne_special {x : String} (hg : goodName x = true) (h : isSpecial x = true) : False := by
+  have h1 := special_head h
+  simp only [goodName, Bool.and_eq_true, Bool.not_eq_true', beq_eq_false_iff_ne, ne_eq] at hg
+  exact hg.2 h1
+
+theorem special_valid {x : String} (h : isSpecial x = true) : validName x.toList = true := by
+  rcases special_cases h with rfl | rfl | rfl | rfl | rfl <;> decide
+
 end Tsh.Sem2
